@@ -198,17 +198,18 @@ def winNormUnc (idna : Idna) (p : List Nat) : List Nat :=
     | none => p
   | _ => p
 
-/-- Round trip, UNC paths: an accepted UNC path whose parsed server is neither `localhost` (finding F6) nor
-    `.` comes back as the UTF-8 bytes of its normal form.  IDNA hypothesis: `IdnaStable` (output non-empty
+/-- Round trip, UNC paths: an accepted UNC path whose parsed server is not `localhost` (finding F6) comes
+    back as the UTF-8 bytes of its normal form.  (A server that parses to `.` is not accepted any more:
+    `C17_unc_dot_host_rejected_from_path`.)  IDNA hypothesis: `IdnaStable` (output non-empty
     lower-case ASCII; idempotent on its own `xn--` outputs). -/
 theorem C17_roundtrip_windows_unc :
     ∀ (idna : Idna) (p : List Nat) (hst : Host), IdnaStable idna → (∀ c ∈ p, Spec.isScalar c = true) →
       (winClassify p).2 = true → (Impl.urlFromFilePath idna p .windows).isSome = true →
-      winUncHost idna p = some hst → hst.text ≠ Impl.sLocalhost → hst.text ≠ [0x2E] →
+      winUncHost idna p = some hst → hst.text ≠ Impl.sLocalhost →
       c17rt idna p = some (Spec.utf8Encode (winNormUnc idna p)) := by
-  intro idna p hst hi hs hcl hacc hhost hloc hdot
+  intro idna p hst hi hs hcl hacc hhost hloc
   obtain ⟨u, hu⟩ := Option.isSome_iff_exists.1 hacc
-  obtain ⟨host, share, rest, hst', hsplit, hne, hph, -, -, hback⟩ :=
+  obtain ⟨host, share, rest, hst', hsplit, hne, hph, -, -, hdot, hback⟩ :=
     Proofs.C17.roundtrip_unc_core idna p u hs hu hcl
   have he : hst' = hst := by
     unfold winUncHost at hhost
@@ -235,22 +236,22 @@ theorem C17_roundtrip_windows_unc :
 theorem C17_fixed_point_windows_unc_of_reparse :
     ∀ (idna : Idna) (p p' : List Nat) (hst : Host), IdnaStable idna → (∀ c ∈ p, Spec.isScalar c = true) →
       (winClassify p).2 = true → winUncHost idna p = some hst →
-      hst.text ≠ Impl.sLocalhost → hst.text ≠ [0x2E] →
+      hst.text ≠ Impl.sLocalhost →
       Impl.parseHost idna (Impl.percentEncode Impl.rawPathNoEnc hst.text) false = some hst →
       c17rt idna p = some p' →
       p' = Spec.utf8Encode (winNormUnc idna p) ∧ Impl.decode .u8 p' = winNormUnc idna p ∧
       c17rt idna (winNormUnc idna p) = some p' ∧ c17rt idna (Impl.decode .u8 p') = some p' ∧
       winNormUnc idna (winNormUnc idna p) = winNormUnc idna p := by
-  intro idna p p' hst hi hs hcl hhost hloc hdot hre hrt
+  intro idna p p' hst hi hs hcl hhost hloc hre hrt
   have hacc : (Impl.urlFromFilePath idna p .windows).isSome = true := by
     cases h : Impl.urlFromFilePath idna p .windows with
     | none => unfold c17rt at hrt; rw [h] at hrt; cases hrt
     | some u => rfl
-  have h1 := C17_roundtrip_windows_unc idna p hst hi hs hcl hacc hhost hloc hdot
+  have h1 := C17_roundtrip_windows_unc idna p hst hi hs hcl hacc hhost hloc
   rw [hrt] at h1
   simp only [Option.some.injEq] at h1
   obtain ⟨u, hu⟩ := Option.isSome_iff_exists.1 hacc
-  obtain ⟨host, share, rest, hst', hsplit, hne, hph, hW, hdd, -⟩ :=
+  obtain ⟨host, share, rest, hst', hsplit, hne, hph, hW, hdd, hdot, -⟩ :=
     Proofs.C17.roundtrip_unc_core idna p u hs hu hcl
   have hph' : Impl.parseHost idna (Impl.percentEncode Impl.rawPathNoEnc host) false = some hst' := hph
   have he : hst' = hst := by
@@ -302,20 +303,20 @@ theorem C17_fixed_point_windows_unc_of_reparse :
 theorem C17_fixed_point_windows_unc_partial :
     ∀ (idna : Idna) (p p' : List Nat) (hst : Host), IdnaStable idna → (∀ c ∈ p, Spec.isScalar c = true) →
       (winClassify p).2 = true → winUncHost idna p = some hst →
-      hst.text ≠ Impl.sLocalhost → hst.text ≠ [0x2E] →
+      hst.text ≠ Impl.sLocalhost →
       (∀ c ∈ hst.text, Impl.rawPathNoEnc c = true) →
       c17rt idna p = some p' →
       p' = Spec.utf8Encode (winNormUnc idna p) ∧ Impl.decode .u8 p' = winNormUnc idna p ∧
       c17rt idna (winNormUnc idna p) = some p' ∧ c17rt idna (Impl.decode .u8 p') = some p' ∧
       winNormUnc idna (winNormUnc idna p) = winNormUnc idna p := by
-  intro idna p p' hst hi hs hcl hhost hloc hdot hkeep hrt
-  refine C17_fixed_point_windows_unc_of_reparse idna p p' hst hi hs hcl hhost hloc hdot ?_ hrt
+  intro idna p p' hst hi hs hcl hhost hloc hkeep hrt
+  refine C17_fixed_point_windows_unc_of_reparse idna p p' hst hi hs hcl hhost hloc ?_ hrt
   have hacc : (Impl.urlFromFilePath idna p .windows).isSome = true := by
     cases h : Impl.urlFromFilePath idna p .windows with
     | none => unfold c17rt at hrt; rw [h] at hrt; cases hrt
     | some u => rfl
   obtain ⟨u, hu⟩ := Option.isSome_iff_exists.1 hacc
-  obtain ⟨host, share, rest, hst', hsplit, hne, hph, -, -, -⟩ :=
+  obtain ⟨host, share, rest, hst', hsplit, hne, hph, -, -, hdot, -⟩ :=
     Proofs.C17.roundtrip_unc_core idna p u hs hu hcl
   have hph' : Impl.parseHost idna (Impl.percentEncode Impl.rawPathNoEnc host) false = some hst' := hph
   have he : hst' = hst := by
@@ -384,18 +385,18 @@ example : (∀ c ∈ asciiStr "\\\\Server\\C|/a\\.\\b c?#%41\\" ++ [0xE9] ++ asc
 example : c17rt c17bIdna (asciiStr "\\\\Server\\C|/a\\.\\b c?#%41\\" ++ [0xE9] ++ asciiStr "\\.") =
     some (asciiStr "\\\\server\\C:\\a\\b c?#%41\\" ++ [0xC3, 0xA9, 0x5C]) := by
   rw [C17_roundtrip_windows_unc c17bIdna _ { kind := .domain, text := asciiStr "server" } c17bIdna_stable
-    (by decide) (by decide) (by rw [C17_windows_eq]; decide +kernel) (by decide +kernel) (by decide) (by decide)]
+    (by decide) (by decide) (by rw [C17_windows_eq]; decide +kernel) (by decide +kernel) (by decide)]
   decide +kernel
 -- the `\\?\UNC\` spelling and an IPv4 server written in hexadecimal
 example : c17rt c17bIdna (asciiStr "\\\\?\\UNC\\0x7F.1\\share") = some (asciiStr "\\\\127.0.0.1\\share") := by
   rw [C17_roundtrip_windows_unc c17bIdna _ { kind := .ipv4, text := asciiStr "127.0.0.1" } c17bIdna_stable
-    (by decide) (by decide) (by rw [C17_windows_eq]; decide +kernel) (by decide +kernel) (by decide) (by decide)]
+    (by decide) (by decide) (by rw [C17_windows_eq]; decide +kernel) (by decide +kernel) (by decide)]
   decide +kernel
 -- fixed point: the returned path of the first example is returned again
 example : c17rt c17bIdna (asciiStr "\\\\server\\C:\\a\\b c?#%41\\" ++ [0xE9, 0x5C]) =
     some (asciiStr "\\\\server\\C:\\a\\b c?#%41\\" ++ [0xC3, 0xA9, 0x5C]) := by
   rw [C17_roundtrip_windows_unc c17bIdna _ { kind := .domain, text := asciiStr "server" } c17bIdna_stable
-    (by decide) (by decide) (by rw [C17_windows_eq]; decide +kernel) (by decide +kernel) (by decide) (by decide)]
+    (by decide) (by decide) (by rw [C17_windows_eq]; decide +kernel) (by decide +kernel) (by decide)]
   decide +kernel
 
 /-- Finding F6 on the model: the UNC path `\\localhost\share\x` is accepted, the file host state drops the
@@ -435,16 +436,74 @@ theorem C17_unc_localhost_counterexample :
     · rw [hlit] at h; simp at h
     · rcases h with h | h <;> (rw [hlit] at h; simp at h)
 
-/-- a second exception of the same kind (new): path_from_file_url rejects every file URL whose host is `.`
-    ("UNC path cannot have "." hostname"), and url_from_file_path produces such a URL from a UNC path whose
-    server name IDNA maps to `.` — with ICU, U+3002 IDEOGRAPHIC FULL STOP: the C++ library gives
-    `\\。\share\x` → `file://./share/x` → url_error.  (`hst.text ≠ "."` therefore is a necessary hypothesis
-    of `C17_roundtrip_windows_unc`.) -/
+/-- path_from_file_url rejects every file URL whose host is `.` ("UNC path cannot have "." hostname").
+    Before the fix of url_from_file_path a UNC path whose server name IDNA maps to `.` (with ICU: U+3002
+    IDEOGRAPHIC FULL STOP) gave such a URL: `\\。\share\x` → `file://./share/x` → url_error on the way
+    back, a second exception of the kind of F6. -/
 theorem C17_unc_dot_host_rejected :
     ∀ u : Url, u.isFile = true → u.hostText = [0x2E] → Impl.pathFromFileUrl u .windows = none := by
   intro u hf hh
   unfold Impl.pathFromFileUrl
   simp [hf, hh]
+
+/-- the fix on the model: url_from_file_path (final check `file_url.hostname() == "."`,
+    `Impl.rejectDotHost`) rejects a UNC path whose server parses to the host `.`; hence every accepted UNC
+    path has a parsed server other than `.`, and `C17_roundtrip_windows_unc` needs no such hypothesis -/
+theorem C17_unc_dot_host_rejected_from_path :
+    ∀ (idna : Idna) (p : List Nat) (hst : Host), (∀ c ∈ p, Spec.isScalar c = true) →
+      (winClassify p).2 = true → winUncHost idna p = some hst → hst.text = [0x2E] →
+      Impl.urlFromFilePath idna p .windows = none := by
+  intro idna p hst hs hcl hhost hdot
+  cases hu : Impl.urlFromFilePath idna p .windows with
+  | none => rfl
+  | some u =>
+    exfalso
+    obtain ⟨host, share, rest, hst', hsplit, -, hph, -, -, hnd, -⟩ :=
+      Proofs.C17.roundtrip_unc_core idna p u hs hu hcl
+    have hph' : Impl.parseHost idna (Impl.percentEncode Impl.rawPathNoEnc host) false = some hst' := hph
+    have he : hst' = hst := by
+      unfold winUncHost at hhost
+      rw [hsplit] at hhost
+      simp only [] at hhost
+      rw [hph'] at hhost
+      simpa using hhost
+    subst he
+    exact hnd hdot
+
+/-- an IDNA stand-in that maps U+3002 to `.` (as ICU does), otherwise `c17bIdna` -/
+def c17bIdnaDot : Idna := fun l => if l = [0x3002] then some [0x2E] else c17bIdna l
+
+/-- the server U+3002 parses to the host `.` (percent-decode → UTF-16 → IDNA stand-in) -/
+theorem c17b_dot_host :
+    winUncHost c17bIdnaDot ([0x5C, 0x5C, 0x3002] ++ asciiStr "\\share\\x") = some { kind := .domain, text := [0x2E] } := by
+  have hsplit : splitOnP Impl.isWindowsSlash (winClassify ([0x5C, 0x5C, 0x3002] ++ asciiStr "\\share\\x")).1 =
+      [[0x3002], asciiStr "share", asciiStr "x"] := by decide +kernel
+  unfold winUncHost
+  rw [hsplit]
+  simp only []
+  have henc : Impl.percentEncode Impl.rawPathNoEnc [0x3002] = [0x25, 0x45, 0x33, 0x25, 0x38, 0x30, 0x25, 0x38, 0x32] := by
+    decide +kernel
+  have hdec : Impl.percentDecode [0x25, 0x45, 0x33, 0x25, 0x38, 0x30, 0x25, 0x38, 0x32] = Spec.utf8Encode [0x3002] := by
+    rw [← henc]; exact Proofs.C14.percentDecode_percentEncode _ _ (by decide) (by decide)
+  rw [henc, Proofs.C08.parseHost_domain _ _ _ (by decide)]
+  have hfast : Proofs.C08.fastPath [0x25, 0x45, 0x33, 0x25, 0x38, 0x30, 0x25, 0x38, 0x32] = none := by decide +kernel
+  rw [hfast]
+  simp only []
+  unfold Proofs.C08.idnaPath
+  have hde : Impl.decode .u8 (Spec.utf8Encode [0x3002]) = [0x3002] := Impl.decode_encode .u8 [0x3002] (by decide)
+  rw [hdec, hde]
+  have h16 : Impl.encodeUtf16 [0x3002] = [0x3002] := by decide +kernel
+  rw [h16]
+  have hid : c17bIdnaDot [0x3002] = some [0x2E] := by decide +kernel
+  rw [hid]
+  decide +kernel
+
+/-- hypotheses of `C17_unc_dot_host_rejected_from_path` satisfiable, and its conclusion on the instance:
+    `\\。\share\x` is rejected by url_from_file_path (the C++ library after the fix: url_error
+    file_unsupported_path) -/
+theorem C17_unc_dot_host_witness :
+    Impl.urlFromFilePath c17bIdnaDot ([0x5C, 0x5C, 0x3002] ++ asciiStr "\\share\\x") .windows = none :=
+  C17_unc_dot_host_rejected_from_path c17bIdnaDot _ _ (by decide) (by decide) c17b_dot_host rfl
 
 end Upa.Props
 
@@ -457,4 +516,6 @@ end Upa.Props
 #print axioms Upa.Props.C17_fixed_point_windows_unc_partial
 #print axioms Upa.Props.C17_unc_localhost_counterexample
 #print axioms Upa.Props.C17_unc_dot_host_rejected
+#print axioms Upa.Props.C17_unc_dot_host_rejected_from_path
+#print axioms Upa.Props.C17_unc_dot_host_witness
 #print axioms Upa.Props.c17bIdna_stable
